@@ -832,14 +832,18 @@ def gen_repeat(draw, env):
         pre.append(['assign', counter, ['num', '0']])
         env.defined.add(counter)
         env.note_assigned(counter)
+        extra = None
+        if kind == 'while' and flip(draw):
+            # before the body: the condition cannot use what the body defines
+            extra = bool_expr(draw, env, 1)
         inner = enter_loop(env, kind, counter)
         body = gen_block(draw, inner)
         bump = ['assign', counter, ['bin', '+', ['var', counter],
                                     ['num', '1']]]
         if kind == 'while':
             cond = ['bin', '<', ['var', counter], ['num', str(limit)]]
-            if flip(draw):
-                cond = ['bin', 'and', cond, bool_expr(draw, env, 1)]
+            if extra is not None:
+                cond = ['bin', 'and', cond, extra]
             body = body + [bump]
             spec = ['while', cond]
         else:
